@@ -26,8 +26,9 @@ PROPS = {
                  "the real server.New + Run on the virtual segment (sequential scripts under a virtual clock) and by real-time bursts of overlapping "
                  "packets, with an independent grant-overlap monitor on the tapped frames."
                  " The lease database below the handlers is on the regenerated code too: every method of *IPDB (UpdateClient, FindIP, LookupClientByDuid, AddPermanentClient, ...) and every method of the clients table (Lookup, Inject, SetLease, ... with its Go map and record pointers), as translated from the source on every run, equal the model operations the invariants are proved over (C11Code, C11CodeClients)."
-                 " The packet handlers (handleMsg, handleDiscover, handleRequest, sendMsg, sendNACK, getDuid) as translated from the source on every run, executed over the model's database steps and handler oracle, end in exactly the database and frame of the model's handle (C04Code).",
-        "props": ["C01", "C02Code", "C11Code", "C11CodeClients", "C04Code"],
+                 " The packet handlers (handleMsg, handleDiscover, handleRequest, sendMsg, sendNACK, getDuid) as translated from the source on every run, executed over the model's database steps and handler oracle, end in exactly the database and frame of the model's handle (C04Code)."
+                 " Composed: the translated handlers running on top of the translated lease database (their database calls answered by actually running Gen.ipdb.*) still end in the database and frame of the model's handle (C01CodeStack.code_stack_handleMsg).",
+        "props": ["C01", "C02Code", "C11Code", "C11CodeClients", "C04Code", "C01CodeStack"],
         "streams": [{"test": "TestSrvSeq", "names": ["srvseq"], "timeout": 300}, {"test": "TestSrvConc", "names": ["srvconc"], "timeout": 300},
                     {"test": "TestDbConc", "names": ["dbconc"], "timeout": 300},
                     {"test": "TestIpdb", "names": ["ipdb"], "timeout": 300}],
@@ -97,8 +98,9 @@ PROPS = {
                  "conflict (silent_only_if_exhausted) — Lean theorems over all event lists; correspondence as C01 with gaps around hold and lease "
                  "times and a monitor that tracks every client's running grants from the tapped frames."
                  " UpdateClient (never-shorten rule included) and FindIP (suggestion only inside the range, permutation, per-candidate probe) as translated from the source on every run equal the model's updateClient/findIP, and the clients table below them equals Model/Clients (C11Code, C11CodeClients)."
-                 " The packet handlers (handleMsg, handleDiscover, handleRequest, sendMsg, sendNACK, getDuid) as translated from the source on every run, executed over the model's database steps and handler oracle, end in exactly the database and frame of the model's handle (C04Code).",
-        "props": ["C05", "C11Code", "C11CodeClients", "C04Code"],
+                 " The packet handlers (handleMsg, handleDiscover, handleRequest, sendMsg, sendNACK, getDuid) as translated from the source on every run, executed over the model's database steps and handler oracle, end in exactly the database and frame of the model's handle (C04Code)."
+                 " Composed: the translated handlers running on top of the translated lease database (their database calls answered by actually running Gen.ipdb.*) still end in the database and frame of the model's handle (C01CodeStack.code_stack_handleMsg).",
+        "props": ["C05", "C11Code", "C11CodeClients", "C04Code", "C01CodeStack"],
         "streams": [{"test": "TestSrvSeq", "names": ["srvseq"], "timeout": 300}, {"test": "TestIpdb", "names": ["ipdb"], "timeout": 300}],
         "rule": "as C01 (gaps hold-2 s, hold+2 s, lease/2, lease-3 s, lease+3 s, 3*lease; re-DISCOVERs by bound clients; retransmitted REQUESTs; other "
                 "hosts in between; pools down to one address) plus the IPDB stream at database level; non-trivial = the server answered",
@@ -164,8 +166,9 @@ PROPS = {
                  "(Expect.c01_c09_c11_ipdb_lock_discipline, c09_handler_isolation); real-time bursts of overlapping packets into the real Run loop and "
                  "concurrent calls on the real IPDB checked against all sequential orders."
                  " The receive loop as translated from the source on every run copies every packet out of the receive buffer before decoding it and hands each handler its own decoded message (C10Code.code_run): what a handler gets is a function of its own frame."
-                 " The packet handlers (handleMsg, handleDiscover, handleRequest, sendMsg, sendNACK, getDuid) as translated from the source on every run, executed over the model's database steps and handler oracle, end in exactly the database and frame of the model's handle (C04Code).",
-        "props": ["C09", "C10Code", "C04Code"],
+                 " The packet handlers (handleMsg, handleDiscover, handleRequest, sendMsg, sendNACK, getDuid) as translated from the source on every run, executed over the model's database steps and handler oracle, end in exactly the database and frame of the model's handle (C04Code)."
+                 " Composed: the translated handlers running on top of the translated lease database (their database calls answered by actually running Gen.ipdb.*) still end in the database and frame of the model's handle (C01CodeStack.code_stack_handleMsg).",
+        "props": ["C09", "C10Code", "C04Code", "C01CodeStack"],
         "streams": [{"test": "TestSrvConc", "names": ["srvconc"], "timeout": 300}, {"test": "TestDbConc", "names": ["dbconc"], "timeout": 300},
                     {"test": "TestCfgOptions", "names": ["cfgopts"], "timeout": 300},
                     {"test": "TestSrvConc", "names": ["srvconc-race"], "timeout": 300, "race": True, "env": {"HX_N": "16", "HX_SUFFIX": "-race"},
